@@ -583,7 +583,37 @@ func checkSessionChunking(p *Prog, r *Report) {
 	}
 }
 
+// checkCarryOverOwnedByRead: the unread tail of a partially read message (bufptr, pointing into recvbuf) is
+// modified by Read alone — any other function that stores to it (Close "releasing" the buffer, a reset) drops
+// bytes that were received and acknowledged but not yet handed to the caller. Shared by C01.S10 and C13.W13.
+func checkCarryOverOwnedByRead(p *Prog, r *Report, rule string) {
+	fi := p.FuncByName("(*UDPSession).Read")
+	n := 0
+	for _, f := range []*types.Var{p.Field("UDPSession", "bufptr"), p.Field("UDPSession", "recvbuf")} {
+		for _, st := range p.FieldStores(f) {
+			root := rootFuncInfo(st.Fn)
+			if st.InLit || root.Name == "newUDPSession" {
+				continue
+			}
+			n++
+			// a helper called by Read alone is part of Read
+			for k := 0; k < 3 && root != fi; k++ {
+				caller, _, okC := p.singleCaller(root)
+				if !okC {
+					break
+				}
+				root = rootFuncInfo(caller)
+			}
+			r.check(root == fi, rule, st.Fn.Name, p.Pos(st.Node), "store(UDPSession."+f.Name()+") in "+st.Fn.Name, "only Read moves the carry-over", "the carry-over of a partially read message is modified outside Read: bytes already received (and acknowledged to the peer) but not yet returned to the caller are dropped — after Close, Read no longer drains what had arrived")
+		}
+	}
+	if n == 0 {
+		r.bad(rule, fi.Name, p.Pos(fi.Node), "carry-over", "Read keeps no carry-over of partially read messages", "")
+	}
+}
+
 func checkReadCarryOver(p *Prog, r *Report) {
+	checkCarryOverOwnedByRead(p, r, "C01.S10")
 	fi := p.FuncByName("(*UDPSession).Read")
 	fBuf := p.Field("UDPSession", "bufptr")
 	fRecvbuf := p.Field("UDPSession", "recvbuf")
@@ -1237,9 +1267,25 @@ func checkWriteAccounting(p *Prog, r *Report) {
 	// the accumulator: the local that receives += len(...)
 	var acc *types.Var
 	inspectBody(wb, func(x ast.Node) bool {
-		if as, ok := x.(*ast.AssignStmt); ok && as.Tok == token.ADD_ASSIGN && len(as.Lhs) == 1 && len(as.Rhs) == 1 {
-			if t := p.Term(as.Rhs[0]); t.Op == "len" {
-				if v := identVar(p, as.Lhs[0]); v != nil {
+		if as, ok := x.(*ast.AssignStmt); ok && len(as.Lhs) == 1 && len(as.Rhs) == 1 {
+			v := identVar(p, as.Lhs[0])
+			t := p.Term(as.Rhs[0])
+			switch {
+			case v == nil:
+			case as.Tok == token.ADD_ASSIGN && t.Op == "len":
+				acc = v
+			case as.Tok == token.ASSIGN && t.Op == "+":
+				// n = n + len(b)
+				self, ln := false, false
+				for _, a := range t.Args {
+					if a.Op == "var" && a.Obj == v {
+						self = true
+					}
+					if a.Op == "len" {
+						ln = true
+					}
+				}
+				if self && ln {
 					acc = v
 				}
 			}
